@@ -384,7 +384,10 @@ func (s *simStage) actor() {
 			kind += "+stdin-close"
 		}
 		s.run.fired(kind)
-		if de.f.Kind == "signal" {
+		if de.f.Kind == "truncate" {
+			// the stream simply ends here and the process reports success
+			s.run.log(s.kind, "exit", 0)
+		} else if de.f.Kind == "signal" {
 			s.err = exitError(0, de.f.Signal, "")
 			s.run.log(s.kind, "signal", de.f.Signal)
 		} else {
